@@ -304,6 +304,9 @@ func FunctionMap() map[string]physical.FunctionDetails {
 					OutputType:    octosql.String,
 					Strict:        true,
 					Function: func(values []octosql.Value) (octosql.Value, error) {
+						if values[1].Int < 0 || values[1].Int > math.MaxInt32 {
+							return octosql.ZeroValue, fmt.Errorf("invalid string repetition count: %d", values[1].Int)
+						}
 						return octosql.NewString(strings.Repeat(values[0].Str, int(values[1].Int))), nil
 					},
 				},
@@ -312,6 +315,9 @@ func FunctionMap() map[string]physical.FunctionDetails {
 					OutputType:    octosql.String,
 					Strict:        true,
 					Function: func(values []octosql.Value) (octosql.Value, error) {
+						if values[0].Int < 0 || values[0].Int > math.MaxInt32 {
+							return octosql.ZeroValue, fmt.Errorf("invalid string repetition count: %d", values[0].Int)
+						}
 						return octosql.NewString(strings.Repeat(values[1].Str, int(values[0].Int))), nil
 					},
 				},
